@@ -69,6 +69,12 @@ def cases(tier, seed):
         n = rng.choice((12, 16, 20)) if d == 3 else rng.choice((24, 40))
         cs.append({'gen': 'random', 'kind': 'noisy', 'N': [n] * d, 'dtype': ['f64', 'c128', 'f64', 'f32'][i % 4], 'source': ['torch', 'numpy'][i % 2], 'shape': ['none', 'tensor'][(i // 2) % 2],
                    'eps': None, 'eps_over_noise': [0.4, 0.6, 0.25][i % 3], 'rmax': ['int', 'list'][(i // 4) % 2], 'cap_extra': 1 + (i // 8) % 3, 'rs': rng.choice((1, 2, 3))})
+    # directed: TALL unfoldings (>= 10 x) whose singular values span twelve orders of magnitude, at eps 1e-10 / 1e-12: values between eps and 1e-8 of the largest must survive
+    for i in range(12 if not T else 120):
+        m = rng.choice((3, 4, 5))
+        tall = rng.choice((60, 90, 144))
+        cs.append({'gen': 'random', 'kind': 'tall_deep', 'N': [[tall // 6, 6, m], [tall, m], [6, tall // 6, m]][i % 3], 'dtype': ['f64', 'c128'][i % 2], 'source': ['torch', 'numpy'][(i // 2) % 2],
+                   'shape': 'none', 'eps': [1e-10, 1e-12, 1e-9][i % 3], 'rmax': 'none', 'tall': True})
     # adaptive stress: breakpoints
     for i in range(200 if not T else 3000):
         d = rng.choice([2, 2, 3, 3, 4, 5])
@@ -111,6 +117,15 @@ def make_input(case, g):
         A = gens.values(modes, dt, 'gauss', g)
     elif kind == 'zero':
         A = torch.zeros(modes, dtype=dt)
+    elif kind == 'tall_deep':
+        # A = U diag(s) V^H reshaped: the LAST unfolding is (prod of the leading modes) x m with singular values 1, 10^-k, ... down to ~1e-11
+        m_ = modes[-1]
+        rows = dn.prod(modes[:-1])
+        up = dn.up(dt)
+        U = gens.orth(rows, g, up)[:, :m_]
+        V = gens.orth(m_, g, up)
+        sv = torch.tensor([10.0 ** (-11.0 * j / max(m_ - 1, 1)) for j in range(m_)], dtype=torch.float64).to(up)
+        A = ((U * sv) @ V.conj().T).reshape(modes).to(dt)
     elif kind == 'noisy':
         rs = case['rs']
         sig = dn.dense_of_cores(gens.make_cores(modes, [1] + [rs] * (d - 1) + [1], dn.up(dt), 'gauss', g))
